@@ -107,10 +107,19 @@ def quick_specs(lens=None):
 
 
 def thorough_specs():
-    lens = LENS_THOROUGH
-    return [("id", ["a", "b"], lens, 3, 4), ("id", ["a", "b", "c"], LENS_QUICK, 2, 3), ("iddiag", ["a", "b", "c"], lens, 3, 3),
-            ("idcat", ["a", "b", "c"], lens, 3, 3),
-            ("elementwise", ["a", "b", "c"], LENS_QUICK, 2, 2), ("elementwise", ["a", "b"], lens, 2, 3),
-            ("reduce", ["a", "b", "c"], lens, 3, 4), ("preserve", ["a", "b", "c"], lens, 3, 4),
-            ("argfind", ["a", "b", "c"], lens, 3, 4), ("dot", ["a", "b", "c"], lens, 3, 3), ("get_at", ["a", "b", "c"], lens, 2, 3),
-            ("update_at", ["a", "b"], lens, 2, 3)]
+    """the quick families under all seven length assignments, plus larger expression bounds (three names / four leaves)
+    under the first assignment; sized so that a thorough run of every check terminates (use cap() per check)"""
+    base = quick_specs(LENS_THOROUGH)
+    one = LENS_QUICK[:1]
+    extra = [("id", ["a", "b", "c"], one, 2, 3), ("idcat", ["a", "b", "c"], one, 3, 3), ("elementwise", ["a", "b", "c"], one, 2, 2),
+             ("reduce", ["a", "b", "c"], one, 3, 4), ("preserve", ["a", "b", "c"], one, 3, 4), ("argfind", ["a", "b", "c"], one, 3, 4),
+             ("get_at", ["a", "b", "c"], one, 2, 3)]
+    return base + extra
+
+
+def cap(cases, n):
+    """at most n cases, taken evenly over the enumeration order (every family and length assignment stays represented)"""
+    if len(cases) <= n:
+        return cases
+    step = len(cases) / float(n)
+    return [cases[int(i * step)] for i in range(n)]
